@@ -12,7 +12,7 @@ use peginator::{ParseError, PegParser};
 use proc_macro2::TokenStream;
 use quote::{format_ident, quote};
 
-use super::common::{safe_ident, CodegenGrammar, CodegenRule, CodegenSettings};
+use super::common::{check_ident, safe_ident, CodegenGrammar, CodegenRule, CodegenSettings};
 
 impl CodegenGrammar for Grammar {
     fn generate_code(&self, settings: &CodegenSettings) -> Result<TokenStream> {
@@ -62,6 +62,8 @@ impl CodegenGrammar for Grammar {
                     }
                 }
                 Grammar_rules::CharRule(rule) => {
+                    check_ident(&rule.name)
+                        .with_context(|| format!("Error processing @char rule {}", rule.name))?;
                     let rule_ident = safe_ident(&rule.name);
                     all_types.extend(quote!(pub type #rule_ident = char;));
                     all_impls.extend(
@@ -71,6 +73,8 @@ impl CodegenGrammar for Grammar {
                     );
                 }
                 Grammar_rules::ExternRule(rule) => {
+                    check_ident(&rule.name)
+                        .with_context(|| format!("Error processing @extern rule {}", rule.name))?;
                     let (types, impls) = rule
                         .generate_code(settings)
                         .with_context(|| format!("Error processing @extern rule {}", rule.name))?;
